@@ -13,8 +13,10 @@
 
 // outpoint domain: key k = (txid with first byte k+1, n = k); concrete, so the real salted SipHash-1-3 of the cache map
 // (deterministic keys) is constant-folded by symbolic execution
+#ifndef VERIF_CUSTOM_KEYS
 static inline COutPoint KEY(int k) { uint256 u; u.data()[0] = (unsigned char)(k + 1); return COutPoint(Txid::FromUint256(u), (uint32_t)k); }
 static inline int KEYIDX(const COutPoint& o) { for (int k = 0; k < NKEYS; k++) if (o == KEY(k)) return k; return -1; }
+#endif
 
 // map-model base view: a plain array of optional coins
 struct ModelCoin { bool present; int64_t value; uint32_t height; bool coinbase; };
